@@ -256,8 +256,55 @@ class Stats(Harness):
                     P.prove((B(got) == B(ref)) if not P.concrete else (bool(got) == bool(ref)), nm)
 
 
+class SetterHistory(Harness):
+    """predictions are a function of the model's current parameters: predict, assign a parameter, predict again = fresh model"""
+    name = "model-parameter-reassignment"
+    tol = 1e-7
+
+    def modules(self):
+        return MODS
+
+    def inputs(self, mk):
+        n, m, t = self.params["n"], self.params["m"], self.params["t"]
+        return dict(u=mk.real("u", (m, t)), ud=mk.real("d", (m, t)), beta=mk.real("b", (1, t)), u2=mk.real("v", (m, t)), Z=mk.real("z", (n, m), lo=0, hi=2), X=mk.real("x", (n, 1)))
+
+    def call(self, inp, mk):
+        n, m, t, dom, which = self.params["n"], self.params["m"], self.params["t"], bool(self.params.get("dominance")), self.params["which"]
+        mod = _models(inp, t, dom)
+        g = _mk_gmat("unphased", numpy.array([[0, 1], [2, 1], [1, 1]][:n], dtype="int8")[:, :m])
+
+        def observe(mdl):
+            return dict(pred=mdl.predict(inp["X"], g).unscale(), gebv=mdl.gebv(g).unscale(), gegv=mdl.gegv(g).unscale(), u=mdl.u)
+        first = observe(mod)          # every cache the model may keep is filled before the reassignment
+        new = dict(inp)
+        if which == "u_a":
+            mod.u_a = inp["u2"]
+            new["u"] = inp["u2"]
+        elif which == "u_d":
+            mod.u_d = inp["u2"]
+            new["ud"] = inp["u2"]
+        elif which == "beta":
+            mod.beta = inp["u2"][:1, :]
+            new["beta"] = inp["u2"][:1, :]
+        fresh = _models(new, t, dom)
+        out = observe(mod)
+        for k, v in observe(fresh).items():
+            out[k + "_f"] = v
+        return out
+
+    def check(self, P, inp, out):
+        for k in ("pred", "gebv", "gegv", "u"):
+            a, b = out[k], out[k + "_f"]
+            P.prove(tuple(a.shape) == tuple(b.shape), k + ":shape")
+            for x, y in zip(cells(a), cells(b)):
+                P.prove(P.eq(x, y), "after-reassigning-%s: %s equals that of a fresh model with the same parameters" % (self.params["which"], k))
+
+
 def obligations(tier):
     obs = []
+    for dom, which in ([(True, "u_a"), (True, "u_d"), (False, "u_a"), (True, "beta")] if tier == "quick" else
+                       [(True, "u_a"), (True, "u_d"), (False, "u_a"), (True, "beta"), (False, "beta")]):
+        obs.append(SetterHistory(n=2, m=2, t=1, dominance=dom, which=which))
     if tier == "quick":
         cfg = [("raw", 2, 2, 1, 1, False), ("raw", 3, 2, 2, 2, False), ("phased", 2, 1, 1, 1, False), ("unphased", 2, 2, 1, 1, False), ("phased", 2, 1, 2, 2, False),
                ("phased", 2, 1, 1, 1, True), ("unphased", 2, 1, 1, 1, True), ("raw", 2, 2, 1, 1, True)]
